@@ -583,4 +583,29 @@ theorem step_work (exec : σ → List τ → σ × α) (st : State σ τ α) (s 
     refine ⟨?_, fun s' hs => by simp [upd_other _ _ _ _ hs]⟩
     simp [Thread.work, hpc, PC.work]; omega
 
+/-! ### a step of one thread leaves the other threads alone -/
+
+theorem step_thr_other (exec : σ → List τ → σ × α) (st : State σ τ α) (s s' : Sid) (h : s' ≠ s) :
+    (step exec st s).thr s' = st.thr s' := by
+  unfold step stepWith
+  dsimp only
+  split
+  · split
+    · rfl
+    · simp [upd_other _ _ _ _ h]
+  · simp [upd_other _ _ _ _ h]
+  · split
+    · rfl
+    · simp [upd_other _ _ _ _ h]
+  all_goals simp [upd_other _ _ _ _ h]
+
+theorem runSched_thr_of_not_mem (exec : σ → List τ → σ × α) (st : State σ τ α) (sched : List Sid) (s : Sid)
+    (h : s ∉ sched) : (runSched exec st sched).thr s = st.thr s := by
+  induction sched generalizing st with
+  | nil => rfl
+  | cons x rest ih =>
+    simp only [List.mem_cons, not_or] at h
+    show (runSched exec (step exec st x) rest).thr s = st.thr s
+    rw [ih _ h.2, step_thr_other _ _ _ _ h.1]
+
 end Cpppo.Concurrent
